@@ -811,161 +811,7 @@ func c05(c *core.Ctx) {
 	})
 
 	c.Clause("C05.7", "every numeric field of a transaction that can arrive signed (the *big.Int fields of txdata; box sub-txs are JSON) is rejected when negative by Transaction.VerifyTxBody unconditionally, and the block path reaches that test for every tx and every box sub-tx (verifyTxs → VerifyTxBody → checkBoxTx → VerifyTxBody, each heeded)")
-	c.Run("signs", func() {
-		vtb := c.Fn("chain/types.Transaction.VerifyTxBody")
-		st := c.Struct("chain/types.txdata")
-		n := 0
-		for i := 0; i < st.NumFields(); i++ {
-			f := st.Field(i)
-			pt, isPtr := f.Type().(*types.Pointer)
-			if !isPtr {
-				continue
-			}
-			nm, isNamed := pt.Elem().(*types.Named)
-			if !isNamed || nm.Obj().Name() != "Int" || nm.Obj().Pkg() == nil || nm.Obj().Pkg().Path() != "math/big" {
-				continue
-			}
-			n++
-			ok := false
-			for _, g := range core.CondGuards(vtb, nil) {
-				x, rel, isSign := signTest(c, g.If.Cond)
-				if !isSign {
-					continue
-				}
-				// x is the field itself or an accessor of the receiver that returns it
-				reads := core.SliceHasField(core.Slice(x), f)
-				if ci, isCall := unwrap(x).(*ssa.Call); isCall && !reads {
-					if callee := ci.Call.StaticCallee(); callee != nil && callee.Blocks != nil && len(ci.Call.Args) > 0 && ci.Call.Args[0] == vtb.Params[0] {
-						for _, ret := range core.Returns(callee) {
-							if core.SliceHasField(core.Slice(ret.Results[0]), f) {
-								reads = true
-							}
-						}
-					}
-				}
-				if !reads {
-					continue
-				}
-				failOnTrue := g.Fail == g.If.Block().Succs[0]
-				if !failOnTrue {
-					rel = negateRel(rel)
-				}
-				if rel == token.LSS && g.GuardsSuccess(nil) {
-					ok = true
-				}
-			}
-			c.Check("VerifyTxBody?"+f.Name()+".Sign()<0", "validated-use", ok, vtb.Pos(), "a negative %s is rejected on every path to a successful exit of VerifyTxBody (also when isBlockTx is true)", f.Name())
-		}
-		c.Exactly("txdata-bigint-fields", n, 2)
-
-		// the chain of calls on the block path
-		vtbObj := txm("VerifyTxBody")
-		cbt := c.FuncObj("chain/types.checkBoxTx")
-		// VerifyTxBody → checkBoxTx: a rejection is returned; skipped only when the type is not BoxTx
-		calls := core.CallsIn(vtb, cbt)
-		c.Exactly("VerifyTxBody→checkBoxTx", len(calls), 1)
-		for _, g := range calls {
-			v := core.ErrResult(g)
-			ok := false
-			for _, t := range core.TestsOf(v, core.ErrNonNil) {
-				good := true
-				for _, ret := range core.Returns(vtb) {
-					if core.CanReach(t.Fail, ret.Block()) && core.ClassifyReturn(ret, core.Derived(v), nil) != core.RetFailure {
-						good = false
-					}
-				}
-				if good {
-					ok = true
-				}
-			}
-			c.Check("VerifyTxBody→checkBoxTx", "heeded-guard", ok, g.Pos(), "a rejected sub-tx makes VerifyTxBody fail")
-			// the only guard that lets a success exit bypass the call is the type test against BoxTx
-			boxK, _ := constInt(c.Const("chain/params.BoxTx"))
-			okSkip := true
-			nSkip := 0
-			for _, eg := range core.EdgeGuardsOf(g) {
-				// guards whose other edge reaches a success return
-				other := eg.If.Block().Succs[1]
-				if !eg.OnTrue {
-					other = eg.If.Block().Succs[0]
-				}
-				reachesSuccess := false
-				for _, ret := range core.Returns(vtb) {
-					if core.CanReach(other, ret.Block(), g.Block()) && core.ClassifyReturn(ret, nil, nil) != core.RetFailure {
-						reachesSuccess = true
-					}
-				}
-				if !reachesSuccess {
-					continue
-				}
-				nSkip++
-				if !(core.SliceHasCall(eg.Slice, txm("Type")) && core.SliceHasIntConst(eg.Slice, boxK) && eg.Slice[vtb.Params[0]]) {
-					okSkip = false
-				}
-			}
-			c.Check("VerifyTxBody:checkBoxTx-skipped-only-for-non-box", "guard-scope", okSkip && nSkip == 1, g.Pos(), "the sub-tx check is bypassed only by the test tx.Type()==BoxTx (%d bypassing test(s))", nSkip)
-			a := g.Common().Args
-			c.Check("VerifyTxBody:checkBoxTx(tx.Data, isBlockTx)", "value-flow", len(a) == 5 && core.SliceHasCall(core.Slice(a[0]), txm("Data")) && a[4] == vtb.Params[3], g.Pos(), "the box check gets the tx's own data")
-		}
-		// checkBoxTx → VerifyTxBody on every sub-tx
-		cb := c.Fn("chain/types.checkBoxTx")
-		sub := core.CallsIn(cb, vtbObj)
-		c.Exactly("checkBoxTx→VerifyTxBody", len(sub), 1)
-		for _, g := range sub {
-			v := core.ErrResult(g)
-			ok := false
-			for _, t := range core.TestsOf(v, core.ErrNonNil) {
-				good := true
-				for _, ret := range core.Returns(cb) {
-					if core.CanReach(t.Fail, ret.Block(), g.Block()) && core.ClassifyReturn(ret, core.Derived(v), nil) != core.RetFailure {
-						good = false
-					}
-				}
-				if good && core.EveryIterationPasses(g) {
-					ok = true
-				}
-			}
-			c.Check("checkBoxTx→VerifyTxBody", "heeded-guard", ok, g.Pos(), "every sub-tx is body-checked in every iteration and a failure rejects the box")
-			rs := core.Slice(g.Common().Args[0])
-			c.Check("checkBoxTx:ranges-over-GetBox(data).SubTxList", "value-flow", core.SliceHasField(rs, c.FieldVar("chain/types.Box", "SubTxList")) && core.SliceHasCall(rs, c.FuncObj("chain/types.GetBox")) && rs[cb.Params[0]], g.Pos(),
-				"the sub-txs checked are the ones decoded from the box data")
-		}
-		// the executor decodes the same list
-		rb := c.Fn(tr + ".BoxTxEnv.RunBoxTxs")
-		for _, a := range core.CallsIn(rb, applyObj()) {
-			sl := core.Slice(a.Common().Args[3])
-			okSrc := core.SliceHasField(sl, c.FieldVar("chain/types.Box", "SubTxList")) && core.SliceHasCall(sl, txm("Data")) && sl[rb.Params[2]]
-			if okSrc {
-				okSrc = false
-				if um := c.Fn(tr + ".BoxTxEnv.unmarshalBoxTxs"); len(core.CallsIn(um, c.FuncObj("chain/types.GetBox"))) == 1 && core.SliceHasCall(sl, c.Method(tr+".BoxTxEnv", "unmarshalBoxTxs")) {
-					okSrc = true
-				} else if core.SliceHasCall(sl, c.FuncObj("chain/types.GetBox")) {
-					okSrc = true
-				}
-			}
-			c.Check("RunBoxTxs:applies GetBox(boxTx.Data).SubTxList", "value-flow", okSrc, a.Pos(), "the sub-txs executed are decoded from the same data that was checked")
-		}
-		// verifyTxs → VerifyTxBody(…, isBlockTx = true) for every tx of the block
-		vt := c.Fn(cons + ".verifyTxs")
-		top := core.CallsIn(vt, vtbObj)
-		c.Floor("verifyTxs→VerifyTxBody", len(top), 1)
-		for _, g := range top {
-			v := core.ErrResult(g)
-			ok := false
-			for _, t := range core.TestsOf(v, core.ErrNonNil) {
-				good := true
-				for _, ret := range core.Returns(vt) {
-					if core.CanReach(t.Fail, ret.Block(), g.Block()) && core.ClassifyReturn(ret, core.Derived(v), nil) != core.RetFailure {
-						good = false
-					}
-				}
-				if good && core.EveryIterationPasses(g) {
-					ok = true
-				}
-			}
-			c.Check("verifyTxs→VerifyTxBody", "heeded-guard", ok && core.SliceHasField(core.Slice(g.Common().Args[0]), c.FieldVar("chain/types.Block", "Txs")), g.Pos(), "every tx of a received block is body-checked and a failure rejects the block")
-		}
-	})
+	c.Run("signs", func() { c05Signs(c) })
 
 	// C05.8: "the amount moves only if the transaction succeeds" needs an exact, correctly paired revert, and "charged exactly gasUsed x
 	// gasPrice, gasUsed <= gasLimit" needs the EVM's gas bracket: the change-journal clauses of C07 and the sandbox clauses of C16 are necessary
@@ -1070,4 +916,168 @@ func c05(c *core.Ctx) {
 	c.NotDecidedf("the numeric equalities themselves are NOT decided: that the sum of all balances is unchanged by a block, that Σ fees debited = Σ fees credited as numbers, that DivideSalary's shares add up to at most the term reward, that IsRewardBlock is true once per term")
 	c.NotDecidedf("value flows inside the EVM beyond the Transfer hook (contract.UseGas, gas refunds of SSTORE, precompile pricing), and flows of the gas figure through struct fields, maps or interfaces (C05.3b lists any such escape as undecided instead of guessing)")
 	c.NotDecidedf("that chargeForGas finds an income address (it silently burns the fees otherwise); that a panic in SetBalance is the right reaction to a negative value (it is a crash, see D32's history); big.Int aliasing through values other than GetBalance's result")
+}
+
+// c05Signs is clause C05.7 (signed numeric fields of a transaction are refused when negative, unconditionally); evaluated under C02.7 as well.
+func c05Signs(c *core.Ctx) {
+	const tr = "chain/transaction"
+	const cons = "chain/consensus"
+	acc := func(m string) *types.Func { return c.Method("chain/types.AccountAccessor", m) }
+	txm := func(m string) *types.Func { return c.Method("chain/types.Transaction", m) }
+	_, _ = tr, cons
+	_, _ = acc, txm
+	applyObj := func() *types.Func { return c.Method(tr+".TxProcessor", "applyTx") }
+	vtb := c.Fn("chain/types.Transaction.VerifyTxBody")
+	st := c.Struct("chain/types.txdata")
+	n := 0
+	for i := 0; i < st.NumFields(); i++ {
+		f := st.Field(i)
+		pt, isPtr := f.Type().(*types.Pointer)
+		if !isPtr {
+			continue
+		}
+		nm, isNamed := pt.Elem().(*types.Named)
+		if !isNamed || nm.Obj().Name() != "Int" || nm.Obj().Pkg() == nil || nm.Obj().Pkg().Path() != "math/big" {
+			continue
+		}
+		n++
+		ok := false
+		for _, g := range core.CondGuards(vtb, nil) {
+			x, rel, isSign := signTest(c, g.If.Cond)
+			if !isSign {
+				continue
+			}
+			// x is the field itself or an accessor of the receiver that returns it
+			reads := core.SliceHasField(core.Slice(x), f)
+			if ci, isCall := unwrap(x).(*ssa.Call); isCall && !reads {
+				if callee := ci.Call.StaticCallee(); callee != nil && callee.Blocks != nil && len(ci.Call.Args) > 0 && ci.Call.Args[0] == vtb.Params[0] {
+					for _, ret := range core.Returns(callee) {
+						if core.SliceHasField(core.Slice(ret.Results[0]), f) {
+							reads = true
+						}
+					}
+				}
+			}
+			if !reads {
+				continue
+			}
+			failOnTrue := g.Fail == g.If.Block().Succs[0]
+			if !failOnTrue {
+				rel = negateRel(rel)
+			}
+			if rel == token.LSS && g.GuardsSuccess(nil) {
+				ok = true
+			}
+		}
+		c.Check("VerifyTxBody?"+f.Name()+".Sign()<0", "validated-use", ok, vtb.Pos(), "a negative %s is rejected on every path to a successful exit of VerifyTxBody (also when isBlockTx is true)", f.Name())
+	}
+	c.Exactly("txdata-bigint-fields", n, 2)
+
+	// the chain of calls on the block path
+	vtbObj := txm("VerifyTxBody")
+	cbt := c.FuncObj("chain/types.checkBoxTx")
+	// VerifyTxBody → checkBoxTx: a rejection is returned; skipped only when the type is not BoxTx
+	calls := core.CallsIn(vtb, cbt)
+	c.Exactly("VerifyTxBody→checkBoxTx", len(calls), 1)
+	for _, g := range calls {
+		v := core.ErrResult(g)
+		ok := false
+		for _, t := range core.TestsOf(v, core.ErrNonNil) {
+			good := true
+			for _, ret := range core.Returns(vtb) {
+				if core.CanReach(t.Fail, ret.Block()) && core.ClassifyReturn(ret, core.Derived(v), nil) != core.RetFailure {
+					good = false
+				}
+			}
+			if good {
+				ok = true
+			}
+		}
+		c.Check("VerifyTxBody→checkBoxTx", "heeded-guard", ok, g.Pos(), "a rejected sub-tx makes VerifyTxBody fail")
+		// the only guard that lets a success exit bypass the call is the type test against BoxTx
+		boxK, _ := constInt(c.Const("chain/params.BoxTx"))
+		okSkip := true
+		nSkip := 0
+		for _, eg := range core.EdgeGuardsOf(g) {
+			// guards whose other edge reaches a success return
+			other := eg.If.Block().Succs[1]
+			if !eg.OnTrue {
+				other = eg.If.Block().Succs[0]
+			}
+			reachesSuccess := false
+			for _, ret := range core.Returns(vtb) {
+				if core.CanReach(other, ret.Block(), g.Block()) && core.ClassifyReturn(ret, nil, nil) != core.RetFailure {
+					reachesSuccess = true
+				}
+			}
+			if !reachesSuccess {
+				continue
+			}
+			nSkip++
+			if !(core.SliceHasCall(eg.Slice, txm("Type")) && core.SliceHasIntConst(eg.Slice, boxK) && eg.Slice[vtb.Params[0]]) {
+				okSkip = false
+			}
+		}
+		c.Check("VerifyTxBody:checkBoxTx-skipped-only-for-non-box", "guard-scope", okSkip && nSkip == 1, g.Pos(), "the sub-tx check is bypassed only by the test tx.Type()==BoxTx (%d bypassing test(s))", nSkip)
+		a := g.Common().Args
+		c.Check("VerifyTxBody:checkBoxTx(tx.Data, isBlockTx)", "value-flow", len(a) == 5 && core.SliceHasCall(core.Slice(a[0]), txm("Data")) && a[4] == vtb.Params[3], g.Pos(), "the box check gets the tx's own data")
+	}
+	// checkBoxTx → VerifyTxBody on every sub-tx
+	cb := c.Fn("chain/types.checkBoxTx")
+	sub := core.CallsIn(cb, vtbObj)
+	c.Exactly("checkBoxTx→VerifyTxBody", len(sub), 1)
+	for _, g := range sub {
+		v := core.ErrResult(g)
+		ok := false
+		for _, t := range core.TestsOf(v, core.ErrNonNil) {
+			good := true
+			for _, ret := range core.Returns(cb) {
+				if core.CanReach(t.Fail, ret.Block(), g.Block()) && core.ClassifyReturn(ret, core.Derived(v), nil) != core.RetFailure {
+					good = false
+				}
+			}
+			if good && core.EveryIterationPasses(g) {
+				ok = true
+			}
+		}
+		c.Check("checkBoxTx→VerifyTxBody", "heeded-guard", ok, g.Pos(), "every sub-tx is body-checked in every iteration and a failure rejects the box")
+		rs := core.Slice(g.Common().Args[0])
+		c.Check("checkBoxTx:ranges-over-GetBox(data).SubTxList", "value-flow", core.SliceHasField(rs, c.FieldVar("chain/types.Box", "SubTxList")) && core.SliceHasCall(rs, c.FuncObj("chain/types.GetBox")) && rs[cb.Params[0]], g.Pos(),
+			"the sub-txs checked are the ones decoded from the box data")
+	}
+	// the executor decodes the same list
+	rb := c.Fn(tr + ".BoxTxEnv.RunBoxTxs")
+	for _, a := range core.CallsIn(rb, applyObj()) {
+		sl := core.Slice(a.Common().Args[3])
+		okSrc := core.SliceHasField(sl, c.FieldVar("chain/types.Box", "SubTxList")) && core.SliceHasCall(sl, txm("Data")) && sl[rb.Params[2]]
+		if okSrc {
+			okSrc = false
+			if um := c.Fn(tr + ".BoxTxEnv.unmarshalBoxTxs"); len(core.CallsIn(um, c.FuncObj("chain/types.GetBox"))) == 1 && core.SliceHasCall(sl, c.Method(tr+".BoxTxEnv", "unmarshalBoxTxs")) {
+				okSrc = true
+			} else if core.SliceHasCall(sl, c.FuncObj("chain/types.GetBox")) {
+				okSrc = true
+			}
+		}
+		c.Check("RunBoxTxs:applies GetBox(boxTx.Data).SubTxList", "value-flow", okSrc, a.Pos(), "the sub-txs executed are decoded from the same data that was checked")
+	}
+	// verifyTxs → VerifyTxBody(…, isBlockTx = true) for every tx of the block
+	vt := c.Fn(cons + ".verifyTxs")
+	top := core.CallsIn(vt, vtbObj)
+	c.Floor("verifyTxs→VerifyTxBody", len(top), 1)
+	for _, g := range top {
+		v := core.ErrResult(g)
+		ok := false
+		for _, t := range core.TestsOf(v, core.ErrNonNil) {
+			good := true
+			for _, ret := range core.Returns(vt) {
+				if core.CanReach(t.Fail, ret.Block(), g.Block()) && core.ClassifyReturn(ret, core.Derived(v), nil) != core.RetFailure {
+					good = false
+				}
+			}
+			if good && core.EveryIterationPasses(g) {
+				ok = true
+			}
+		}
+		c.Check("verifyTxs→VerifyTxBody", "heeded-guard", ok && core.SliceHasField(core.Slice(g.Common().Args[0]), c.FieldVar("chain/types.Block", "Txs")), g.Pos(), "every tx of a received block is body-checked and a failure rejects the block")
+	}
 }
